@@ -64,6 +64,8 @@ var (
 	// numbers: integers, a float equal to an integer, 10 (text order would put it before 2)
 	c07Num  = []rv.V{rv.N(), rv.I(1), rv.I(2), rv.I(10), rv.Fl(1)}
 	c07Num3 = []rv.V{rv.N(), rv.I(1), rv.I(2)}
+	// integers that differ only beyond float64 precision (2^53, 2^53+1) and at the int64 bound
+	c07BigInt = []rv.V{rv.N(), rv.I(1 << 53), rv.I(1<<53 + 1), rv.I(-(1<<53 + 1)), rv.I(9223372036854775807), rv.I(9223372036854775806)}
 	// non-numeric text: 'a' < 'B' only case-insensitively, 'B' ties with 'b'
 	c07Text  = []rv.V{rv.N(), rv.S("a"), rv.S("B"), rv.S("b")}
 	c07Text3 = []rv.V{rv.N(), rv.S("a"), rv.S("B")}
@@ -87,7 +89,7 @@ type c07Pair struct {
 // c07AllValues: every value any family uses, for decoding replay payloads.
 func c07AllValues() map[string]rv.V {
 	m := map[string]rv.V{}
-	for _, al := range [][]rv.V{c07Num, c07Num3, c07Text, c07Text3, c07Text2, c07Date, c07Date3, c07NumText, c07NumText4, c07NumText3, c07DateText, c07NaN} {
+	for _, al := range [][]rv.V{c07Num, c07Num3, c07BigInt, c07Text, c07Text3, c07Text2, c07Date, c07Date3, c07NumText, c07NumText4, c07NumText3, c07DateText, c07NaN} {
 		for _, v := range al {
 			m[v.Key()] = v
 		}
@@ -695,7 +697,7 @@ func c07PlanOf(thorough bool) c07Plan {
 			sortPairs: []c07Pair{
 				{"num,text", c07Num, c07Text3, 4}, {"text,num", c07Text, c07Num3, 4}, {"num,num", c07Num, c07Num3, 4},
 				{"date,num", c07Date, c07Num3, 4}, {"text,date", c07Text, c07Date3, 4}, {"numtext,text", c07NumText, c07Text3, 4},
-				{"num,text2", c07Num, c07Text2, 5}},
+				{"num,text2", c07Num, c07Text2, 5}, {"bigint,text2", c07BigInt, c07Text2, 4}},
 			cutPairs: []c07Pair{
 				{"cut 3x2", c07Num3, []rv.V{rv.S("a"), rv.S("b")}, 5},
 				{"cut 4x2", []rv.V{rv.N(), rv.I(1), rv.I(2), rv.Fl(1)}, []rv.V{rv.N(), rv.S("a")}, 4}},
@@ -707,7 +709,7 @@ func c07PlanOf(thorough bool) c07Plan {
 	return c07Plan{
 		sortPairs: []c07Pair{
 			{"num,text", c07Num, c07Text3, 3}, {"num,text2", c07Num, c07Text2, 4}, {"text,num", c07Text, c07Num3, 3}, {"num,num", c07Num, c07Num3, 3},
-			{"date,num", c07Date, c07Num3, 3}, {"text,date", c07Text, c07Date3, 3}, {"numtext,text", c07NumText, c07Text3, 3}},
+			{"date,num", c07Date, c07Num3, 3}, {"text,date", c07Text, c07Date3, 3}, {"numtext,text", c07NumText, c07Text3, 3}, {"bigint,text2", c07BigInt, c07Text2, 3}},
 		cutPairs: []c07Pair{
 			{"cut 3x2", c07Num3, []rv.V{rv.S("a"), rv.S("b")}, 4},
 			{"cut 3x1", []rv.V{rv.N(), rv.I(1), rv.Fl(1)}, []rv.V{rv.S("a")}, 4}},
